@@ -377,8 +377,9 @@ def colsOf (rows : List Row) : List Nat → Except Err (List (List Val))
     | _, .error e => .error e
 
 /-- `read_columns(..., group_by_cols=True)`: one name ⇒ as without grouping; else one list per requested column
-    (a column may be requested twice); the caller gets them as one 2-D array, which keeps the cells as they are when
-    the requested columns have one type (NumPy converts columns of different types to a common one: outside) -/
+    (a column may be requested twice); the caller gets them as one 2-D array — of the columns' type when they share
+    one, else an object array that keeps every cell as it was read (fix: NumPy's common type turned numbers into text
+    next to a text column and large integers into floats next to a float column) -/
 def readColumnsGrouped (f : Frame) (sel : Except Err (List Nat)) (lo hi : Option Int) :
     Except Err (List (List Val)) :=
   match sel with
